@@ -1,6 +1,6 @@
 """Catalogue-driven checks: generate parsers with the real tool, add harnesses,
 run the engine over all of them, confirm counterexamples natively."""
-import json, os, random, re, time
+import json, os, random, re, subprocess, time
 from driver import *
 import gspec
 
@@ -101,7 +101,10 @@ def explore(w, report, cases, prop, harness_re, nmax, per_job_timeout, family, n
                 agg[k_dst] += j.get(k_src, 0)
             agg["solver_s"] += j.get("solver_s", 0)
             agg["reach_end"] += (j.get("reached") or {}).get("end", 0)
+            hang_cex = any((cx.get("msg") or "").startswith("step limit") for cx in j.get("counterexamples") or [])
             for m in j.get("inconclusive") or []:
+                if hang_cex and m.startswith("step limit"):
+                    continue  # decided by the native replay of the model (triage below)
                 report.inconclusive.append("%s %s n=%d: %s" % (rel, hname, j["arg"], m))
             if (j.get("reached") or {}).get("end", 0) == 0 and j.get("completed", 0) > 0 and not j.get("counterexamples"):
                 report.inconclusive.append("%s %s n=%d: vacuous (no path reached the end marker)" % (rel, hname, j["arg"]))
@@ -110,7 +113,8 @@ def explore(w, report, cases, prop, harness_re, nmax, per_job_timeout, family, n
             for cx in j.get("counterexamples") or []:
                 agg["cex"] += 1
                 # native confirmation is capped: 2 per case, 10 per run
-                if triaged.get(rel, 0) >= 2 or sum(triaged.values()) >= 10:
+                is_hang = (cx.get("msg") or "").startswith("step limit")
+                if triaged.get(rel, 0) >= (1 if is_hang else 2) or sum(triaged.values()) >= 10:
                     agg["cex_not_triaged"] = agg.get("cex_not_triaged", 0) + 1
                     continue
                 triaged[rel] = triaged.get(rel, 0) + 1
@@ -153,11 +157,16 @@ def triage(w, report, prop, family, c, rel, hname, arg, cx):
     """Replay a counterexample natively; report only what reproduces."""
     model = cx.get("model") or {}
     msg = cx.get("msg", "")
-    nat = native_run(w, rel, hname, arg, model)
+    hang = msg.startswith("step limit")
+    nat = native_run(w, rel, hname, arg, model, timeout=8 if hang else 120)
     doc = {"property": prop, "family": family, "case": c.id if c else rel, "tags": c.tags if c else [], "harness": hname, "arg": arg,
            "model": model, "input": model_bytes(model), "msg": msg, "peg": c.peg if c else "",
            "variants": [[r, f] for r, _, f in (c.variants if c else [])], "native": {k: nat[k] for k in ("fails", "panic", "timeout", "notes")}}
     reproduced = bool(nat["fails"]) or (nat["panic"] is not None and msg.startswith("uncaught")) or nat["timeout"]
+    if hang and not nat["timeout"] and not nat["fails"]:
+        # the native run terminates: the engine's step limit was simply too small for this path
+        report.inconclusive.append("%s %s n=%d: engine step limit hit but the native run terminates (model %s)" % (rel, hname, arg, model))
+        return
     if not reproduced:
         report.unconfirmed.append("%s %s n=%d: engine counterexample '%s' model=%s did not reproduce natively (%s)" % (
             rel, hname, arg, msg, model, nat["raw"][-300:].replace("\n", " | ")))
